@@ -451,7 +451,13 @@ fn parse_expr(token_stream: &mut TokenStream, min_bind_pow: f64) -> Result<Expr,
                     None => return Err(PolynomialError::UnexpectedEndOfTokens),
                 }
             }
-            let inner = parse_expr(token_stream, 5.0)?;
+            // The argument is exactly the parenthesised expression that follows
+            token_stream.next();
+            let mut inner = parse_expr(token_stream, 0.0)?;
+            ensure(token_stream, &Token::RParen)?;
+            if let Expr::BinaryOp { ref mut paren, .. } = inner {
+                *paren = true;
+            }
             Ok(Expr::Function {
                 func,
                 inner: Box::new(inner),
